@@ -536,6 +536,7 @@ type SpecSet struct {
 	Ats       []*AtStmt
 	Files     []string
 	Conform   map[string][]string // function type key -> properties under which in-repo implementations are checked
+	ConformOnly map[string]map[int]bool // function type key -> ordinals of the ensures clauses that are obligations (nil: all)
 }
 
 func newSpecSet() *SpecSet {
@@ -745,7 +746,27 @@ func (ss *SpecSet) loadFile(path string) error {
 			if ss.Conform == nil {
 				ss.Conform = map[string][]string{}
 			}
-			ss.Conform[f[1]] = append(ss.Conform[f[1]], f[2:]...)
+			// conform TYPE PROP... [ensures N...]: only the listed ensures clauses (1-based) are obligations of an
+			// implementation; the others stay assumptions about it
+			rest := f[2:]
+			for i, w := range rest {
+				if w == "ensures" {
+					if ss.ConformOnly == nil {
+						ss.ConformOnly = map[string]map[int]bool{}
+					}
+					ss.ConformOnly[f[1]] = map[int]bool{}
+					for _, n := range rest[i+1:] {
+						k, err := strconv.Atoi(n)
+						if err != nil {
+							return fmt.Errorf("%s: conform ... ensures N...", pos)
+						}
+						ss.ConformOnly[f[1]][k] = true
+					}
+					rest = rest[:i]
+					break
+				}
+			}
+			ss.Conform[f[1]] = append(ss.Conform[f[1]], rest...)
 			cur = nil
 		case "const":
 			// const NAME = INT
